@@ -432,7 +432,7 @@ def run(ctx):
                 ctx.hist("inputs", "corpus")
         # 2. generated schemas
         feats = {}
-        nsch = 24 if quick else 320
+        nsch = 60 if quick else 320
         t0 = time.time()
         for i in range(nsch):
             if len(ctx.violations) >= 4 or len(ctx.corr_problems) >= 3:
